@@ -56,6 +56,29 @@ type G struct {
 	ResDeepest int64
 	// total number of deepest pixels per axis
 	Size int64
+	// real grids (a block of a built-in set): reference units are 1e-10 CRS units local to the
+	// corner of the anchor pixel; MinX/MinY = extent corner in fixed point as the tool specifies
+	Real       bool
+	MinX, MinY int64
+	AnchorPx   [2]int64 // anchor pixel (of the deepest id) whose corner is the local origin
+}
+
+// Quantise: the tool's specified float -> fixed point conversion (1e-10, truncating)
+func Quantise(x float64) int64 { return int64(x * math.Pow(10, 10)) }
+
+// NewReal builds a grid over a built-in tile matrix set: deepest = finest id of the scope, the window
+// origin is the corner of pixel anchorPx of that id, the lattice has sub steps per deepest pixel.
+func NewReal(name string, tms tms20.TileMatrixSet, deepest int, sub int64, anchorPx [2]int64) (*G, error) {
+	bl, tr, err := tms.MatrixBoundingBox(0)
+	if err != nil {
+		return nil, err
+	}
+	tw := tms.TileMatrices[0].TileWidth
+	level := uint(deepest) + uint(math.Log2(float64(tw))) + 4
+	minX, minY, maxX := Quantise(bl[0]), Quantise(bl[1]), Quantise(tr[0])
+	size := int64(1) << level
+	res := (maxX - minX) / size
+	return &G{Name: name, TMS: tms, Deepest: deepest, Sub: sub, ResDeepest: res, Size: size, Real: true, MinX: minX, MinY: minY, AnchorPx: anchorPx}, nil
 }
 
 func NewSynth(name string, deepest int, px, ox, oy float64, tileWidth uint, corner tms20.CornerOfOrigin, sub int64, offPx [2]int64) *G {
@@ -69,18 +92,47 @@ func (g *G) Res(z int) int64 { return g.ResDeepest << uint(g.Deepest-z) }
 
 // U: lattice point (steps from the window origin) -> reference units.
 func (g *G) U(p ref.P) ref.P {
+	if g.Real {
+		// pixel corners exact, in-pixel offsets with the truncated step (the tool's centre is res/2 truncated)
+		step := g.ResDeepest / g.Sub
+		f := func(v int64) int64 {
+			return ref.FloorDiv(v, g.Sub)*g.ResDeepest + (v-ref.FloorDiv(v, g.Sub)*g.Sub)*step
+		}
+		return ref.P{f(p[0]), f(p[1])}
+	}
 	return ref.P{g.OffPx[0]*g.Sub + p[0], g.OffPx[1]*g.Sub + p[1]}
 }
 
 // F: reference units -> the float coordinate handed to the tool (exact: all
 // quantities are dyadic and small).
 func (g *G) F(u ref.P) [2]float64 {
+	if g.Real {
+		ax := g.MinX + g.AnchorPx[0]*g.ResDeepest + u[0]
+		ay := g.MinY + g.AnchorPx[1]*g.ResDeepest + u[1]
+		return [2]float64{float64(ax) / math.Pow(10, 10), float64(ay) / math.Pow(10, 10)}
+	}
 	return [2]float64{g.Ox + float64(u[0])*g.Px/float64(g.Sub), g.Oy + float64(u[1])*g.Px/float64(g.Sub)}
 }
 
 // Decode: output coordinate at id z -> pixel index; ok=false if the coordinate
 // is not exactly a pixel centre of that id.
 func (g *G) Decode(z int, c [2]float64) (ref.PX, bool) {
+	if g.Real {
+		// pixel index relative to the anchor; the float may be one or two units off the integer centre
+		r := g.Res(z)
+		var out ref.PX
+		for a, q := range [2]int64{Quantise(c[0]) - g.MinX, Quantise(c[1]) - g.MinY} {
+			i := ref.FloorDiv(q, r)
+			d := q - (i*r + r/2)
+			// a float64 cannot hold every fixed-point value above 2^53 units: allow 2 ulps of the ordinate
+			tol := int64(2 + 2*math.Abs(c[a])*2.3e-16*1e10)
+			if d < -tol || d > tol {
+				return ref.PX{}, false
+			}
+			out[a] = i - (g.AnchorPx[a] >> uint(g.Deepest-z))
+		}
+		return out, true
+	}
 	pz := g.Px * float64(uint(1)<<uint(g.Deepest-z))
 	fx := (c[0]-g.Ox)/pz - 0.5
 	fy := (c[1]-g.Oy)/pz - 0.5
@@ -104,5 +156,8 @@ func (g *G) Centre2(z int, px ref.PX) ref.P {
 }
 
 func (g *G) String() string {
+	if g.Real {
+		return fmt.Sprintf("%s(real grid, deepest id %d, pixel %d units, sub=%d, anchor pixel %v)", g.Name, g.Deepest, g.ResDeepest, g.Sub, g.AnchorPx)
+	}
 	return fmt.Sprintf("%s(deepest=%d px=%v origin=(%v,%v) sub=%d off=%v)", g.Name, g.Deepest, g.Px, g.Ox, g.Oy, g.Sub, g.OffPx)
 }
